@@ -7,7 +7,8 @@
    Statements only; proofs in Proofs/CacheProof.v.  Model: Model/Cache.v (cacheOnReadFs.go) over
    Model/Union.v (copyFile / copyToLayer); [now] = time.Now() during the call, [dur] = the cache duration. *)
 From AF Require Import Lib.Bytes Lib.Path Lib.Ops Gen.Consts Model.MemFile Model.MemFs Model.Union Model.Cow
-  Model.Cache Model.Stack Proofs.MemFsBasics Proofs.CacheProof.
+  Model.Cache Model.Stack Model.WfOps Proofs.MemFsBasics Proofs.MemFsWF Proofs.MemFsStep Proofs.MemFsInv Proofs.CacheProof
+  Proofs.CacheReady Proofs.CacheInv Proofs.CacheInvMain.
 Local Open Scope Z_scope.
 
 (* (a) cacheStatus classifies by exactly the three rules — over ARBITRARY inner filesystems.
@@ -163,18 +164,97 @@ Theorem C10_create_ok_cached :
 Proof. exact create_ok_cached. Qed.
 Print Assumptions C10_create_ok_cached.
 
-(* ... and (2) for a name not yet cached whose parent directory the cache has (a directory: below a
-   regular file MemMapFs's Create answers ENOTDIR), in a layer without dangling path-map entries.
-   Full strength (not proved): [layer_ready sl name] for every layer state reachable through the API and every
-   name other than the root — needs MkdirAll's effect on the path map and "an ancestor of a path is not the
-   path" for Lib/Path.v's functions. *)
-Theorem C10_create_ok_new_partial :
+(* ... and (2) for a name the layer does not hold as a regular file (free, or bound to a directory) whose parent
+   entry is a directory, in ANY state (well-formed or not) without dangling path-map entries *)
+Theorem C10_create_ok_new :
   forall (s : mst) (name : str) (p : nat) (pn : node),
   wf_map s -> lookup s (normalize_path name) = None -> lookup s (parent_key (normalize_path name)) = Some p ->
   get_node s p = Some pn -> ndir pn = true ->
   CreateOK s name.
 Proof. exact create_ok_new. Qed.
-Print Assumptions C10_create_ok_new_partial.
+Print Assumptions C10_create_ok_new.
+
+(* FULL STRENGTH of the sane-state hypothesis.  For EVERY state of the cache layer that satisfies the invariant WF
+   of MemMapFs (Proofs/MemFsWF.v; it holds in every state reachable from the empty filesystem by well-formed
+   programs: C01_index_mirrors_map / MemFsInv.wf_seq_WF, re-stated below as C10_layer_states_are_WF) and EVERY
+   name that is absolute after normalisation and is not the root: if the layer holds no regular file at a
+   proper ancestor of the name [no_file_prefix], then copyFile's directory preparation SUCCEEDS — the
+   directory exists, or MkdirAll creates it together with every missing ancestor, at any depth — and the
+   layer.Create that follows returns a fresh read-write handle at offset 0 on an empty regular file registered
+   under the name (whatever the name was bound to before: nothing, a regular file, a directory).
+   Nothing is missing; what used to be: "MkdirAll's effect on the path map" is MemFsStep.WF_mkdirall +
+   FaultyMem.mkdirall_fresh, "an ancestor of a path is not the path" is MemFsPath.par_neq.
+   The remaining hypothesis no_file_prefix is necessary: C10_layer_ready_refuted. *)
+Theorem C10_layer_ready :
+  forall (sl : mst) (name : str),
+  WF sl -> wf_name name = true -> normalize_path name <> s_slash ->
+  no_file_prefix sl (normalize_path name) = true ->
+  snd (dir_prep sl name) = None /\ CreateOK (fst (dir_prep sl name)) name.
+Proof. exact layer_ready_wf. Qed.
+Print Assumptions C10_layer_ready.
+
+(* hence the first read through the cache — CacheOnReadFs.copyToLayer of a regular base file — SUCCEEDS and
+   leaves exactly the base's bytes under the base's mtime, the base unchanged: every file size, every
+   well-formed layer state, every directory depth; no hypothesis on what the layer's calls return *)
+Theorem C10_first_read_total :
+  forall (sb sl : mst) (name : str) (fb : nat) (nb : node),
+  lookup sb (normalize_path name) = Some fb -> get_node sb fb = Some nb -> ndir nb = false ->
+  WF sl -> wf_name name = true -> normalize_path name <> s_slash ->
+  no_file_prefix sl (normalize_path name) = true ->
+  exists sb' sl' fl nl, cache_copy_to_layer m_step m_step sb sl name = (sb', sl', None) /\
+    lookup sl' (normalize_path name) = Some fl /\ get_node sl' fl = Some nl /\
+    ndir nl = false /\ ndata nl = ndata nb /\ nmtime nl = nmtime nb /\ fs_view sb' = fs_view sb.
+Proof. exact first_read_total. Qed.
+Print Assumptions C10_first_read_total.
+
+(* with a well-formed base the side condition "not the root" is implied: the root is a directory *)
+Theorem C10_first_read_total_wf_base :
+  forall (sb sl : mst) (name : str) (fb : nat) (nb : node),
+  WF sb -> lookup sb (normalize_path name) = Some fb -> get_node sb fb = Some nb -> ndir nb = false ->
+  WF sl -> no_file_prefix sl (normalize_path name) = true ->
+  exists sb' sl' fl nl, cache_copy_to_layer m_step m_step sb sl name = (sb', sl', None) /\
+    lookup sl' (normalize_path name) = Some fl /\ get_node sl' fl = Some nl /\
+    ndir nl = false /\ ndata nl = ndata nb /\ nmtime nl = nmtime nb /\ fs_view sb' = fs_view sb.
+Proof. exact first_read_total_wf_base. Qed.
+Print Assumptions C10_first_read_total_wf_base.
+
+(* inside a cache whose modifications all went through it (the invariant CInv of C11: Props/C11.v, holds after
+   every well-formed sequence of calls through the cache) every hypothesis on the layer is discharged: the
+   first read of ANY regular file of the base succeeds *)
+Theorem C10_first_read_in_cache :
+  forall (sb sl : mst) (tbl : list chandle) (name : str) (fb : nat) (nb : node),
+  CInv (sb, sl, tbl) -> lookup sb (normalize_path name) = Some fb -> get_node sb fb = Some nb -> ndir nb = false ->
+  exists sb' sl' fl nl, cache_copy_to_layer m_step m_step sb sl name = (sb', sl', None) /\
+    lookup sl' (normalize_path name) = Some fl /\ get_node sl' fl = Some nl /\
+    ndir nl = false /\ ndata nl = ndata nb /\ nmtime nl = nmtime nb /\ fs_view sb' = fs_view sb.
+Proof. exact first_read_cinv. Qed.
+Print Assumptions C10_first_read_in_cache.
+
+(* the states the theorems quantify over: every state of a MemMapFs reachable from the empty one by a
+   well-formed program satisfies WF *)
+Theorem C10_layer_states_are_WF :
+  forall ops : list op, wf_seq m_init ops = true -> WF (fst (run_steps m_step m_init ops)).
+Proof. exact index_mirrors_map. Qed.
+Print Assumptions C10_layer_states_are_WF.
+
+(* THE CORNER (why no_file_prefix cannot be dropped).  The layer holds a REGULAR FILE where the name needs a
+   directory (base: /a was a file, was cached, then became a directory holding /a/f — direct modifications of
+   the base are what C10 quantifies over).  Then, in every state: Exists(layer, dir) answers true (for any
+   kind of entry), layer.Create answers ENOTDIR (MemMapFs creates nothing below a regular file), the copy
+   returns that error, both trees are unchanged — and [layer_ready] is false.  The read through the cache
+   fails with ENOTDIR; the cached file /a keeps being served (the "for ever" clause wins over the
+   "first read" clause).  Witness replayed against the implementation: corpus/C10/below-cached-file.case. *)
+Theorem C10_below_cached_file_refused :
+  forall (sb sl : mst) (name : str) (fb : nat) (nb : node) (p : nat) (pn : node),
+  lookup sb (normalize_path name) = Some fb -> get_node sb fb = Some nb ->
+  wf_name name = true -> normalize_path name <> s_slash ->
+  lookup sl (normalize_path name) = None ->
+  lookup sl (par (normalize_path name)) = Some p -> get_node sl p = Some pn -> ndir pn = false ->
+  ~ layer_ready sl name /\
+  exists sb' sl', copy_to_layer m_step m_step sb sl name = (sb', sl', Some (EW KENOTDIR)) /\
+    fs_view sl' = fs_view sl /\ fs_view sb' = fs_view sb.
+Proof. exact copy_below_file_refused. Qed.
+Print Assumptions C10_below_cached_file_refused.
 
 (* (d) duration 0 is for ever: once the layer has the (regular) file, Open, OpenFile without write flags and
    Stat through the cache are the layer's — for ANY base state and ANY base implementation: the right-hand
@@ -254,3 +334,51 @@ Example C10_ex_first_read :
   = [TRes (RHandle 0); TRes (RCount 3 None); TRes ROk; TRes ROk; TRes (RHandle 0); TRes (RData [111;108;100]%N None);
      TRes (RInfo (mkFi [102]%N false 3 mode_temporary 1000))].
 Proof. vm_compute. reflexivity. Qed.
+
+(* ---- the corner, on a reachable state: the layer after [Create /a; Close] (a well-formed program, hence WF),
+   name /a/f ---- *)
+Definition p_a : str := [47; 97]%N.                           (* /a *)
+Definition p_af : str := [47; 97; 47; 102]%N.                 (* /a/f *)
+Definition c10_layer_with_file : mst := Eval vm_compute in fst (run_steps m_step m_init [Create p_a; HClose 0]).
+Example C10_layer_ready_refuted :
+  exists (sl : mst) (name : str),
+    WF sl /\ wf_name name = true /\ normalize_path name <> s_slash /\ ~ layer_ready sl name.
+Proof.
+  exists c10_layer_with_file, p_af. split; [|split; [|split]].
+  - exact (index_mirrors_map [Create p_a; HClose 0] eq_refl).
+  - vm_compute. reflexivity.
+  - vm_compute. discriminate.
+  - intros H. assert (Hp : snd (dir_prep c10_layer_with_file p_af) = None) by (vm_compute; reflexivity).
+    destruct (H Hp) as (s2 & lh & fl & nl & Hc & _). vm_compute in Hc. discriminate Hc.
+Qed.
+(* through the whole stack: base /a/f = "old" under a directory /a, the cache layer holds a regular file /a:
+   Open(/a/f) through the cache answers ENOTDIR, Stat(/a) through the cache still shows the cached file *)
+Example C10_ex_below_cached_file :
+  run_case (SCache 0 SMem SMem)
+    [IOp [0%nat] None (Mkdir p_a 493); IOp [0%nat] (Some 0%nat) (Create p_af); IOp [0%nat] None (HWrite 0 [111;108;100]%N);
+     IOp [0%nat] None (HClose 0);
+     IOp [1%nat] (Some 1%nat) (Create p_a); IOp [1%nat] None (HClose 1);
+     IOp [] (Some 2%nat) (Open p_af); IOp [] None (Stat p_a)]
+  = [TRes ROk; TRes (RHandle 0); TRes (RCount 3 None); TRes ROk; TRes (RHandle 0); TRes ROk;
+     TRes (RErr (EW KENOTDIR)); TRes (RInfo (mkFi [97]%N false 0 mode_temporary (BIG + 5000)))].
+Proof. vm_compute. reflexivity. Qed.
+
+(* ---- non-vacuity of C10_layer_ready / C10_first_read_total: a reachable layer (a directory /a holding a
+   file, a file /g) and a name three directories below /a: WF, absolute, not the root, no regular file on
+   the way — and the preparation creates /a/b and /a/b/c ---- *)
+Definition p_g : str := [47; 103]%N.                                              (* /g *)
+Definition p_abcf : str := [47; 97; 47; 98; 47; 99; 47; 102]%N.                   (* /a/b/c/f *)
+Definition c10_prog : list op := [Mkdir p_a 493; Create p_af; HWrite 0 [120]%N; HClose 0; Create p_g; HClose 1].
+Definition c10_layer_deep : mst := Eval vm_compute in fst (run_steps m_step m_init c10_prog).
+Example C10_ex_layer_ready_hyps :
+  WF c10_layer_deep /\ wf_name p_abcf = true /\ normalize_path p_abcf <> s_slash /\
+  no_file_prefix c10_layer_deep (normalize_path p_abcf) = true.
+Proof.
+  split; [exact (index_mirrors_map c10_prog eq_refl)|]. split; [vm_compute; reflexivity|].
+  split; [vm_compute; discriminate | vm_compute; reflexivity].
+Qed.
+Example C10_ex_layer_ready_computes :
+  snd (dir_prep c10_layer_deep p_abcf) = None /\
+  map e_path (snapshot (fst (dir_prep c10_layer_deep p_abcf))) =
+    [[47]; [47;97]; [47;97;47;98]; [47;97;47;98;47;99]; [47;97;47;102]; [47;103]]%N.
+Proof. vm_compute. split; reflexivity. Qed.
